@@ -9,20 +9,25 @@ def _jobs(tier):
     jobs = []
     if tier == "quick":
         for i in range(14):
-            jobs.append(dict(sub="threads", count=100, fix=dict(k=(1, 10))))
+            jobs.append(dict(sub="threads", count=100, fix=dict(k=(1, 10), hot=-1)))
         # the depth-first FFT / block-scheduled NTT paths only exist for N >= 8192 / n >= 2048: a few programs there too
-        jobs.append(dict(sub="threads", count=14, fix=dict(k=(11, 12), T=(2, 8))))
-        jobs.append(dict(sub="threads", count=10, fix=dict(k=(13, 14), T=(2, 6))))
+        jobs.append(dict(sub="threads", count=14, fix=dict(k=(11, 12), T=(2, 8), hot=-1)))
+        jobs.append(dict(sub="threads", count=10, fix=dict(k=(13, 14), T=(2, 6), hot=-1)))
         # warmed-up processes at N=8192: the *_simple front ends with two large dimensions (m = 4096 and 8192) in flight
         for i in range(4):
-            jobs.append(dict(sub="threads", count=16, fix=dict(k=13, T=(3, 6), mode=1, calls=(4, 6))))
+            jobs.append(dict(sub="threads", count=16, fix=dict(k=13, T=(3, 6), mode=1, calls=(4, 6), hot=-1)))
+        # many threads entering the same entry point at once (per-thread / pooled private state inside the library): every module-level kind, T >= 9
+        jobs.append(dict(sub="threads", count=60, fix=dict(k=(1, 10), T=(9, 16), hot=(0, 33))))
+        jobs.append(dict(sub="threads", count=20, fix=dict(k=(11, 12), T=(9, 16), hot=(0, 9), mode=1, calls=(2, 4))))
     else:
+        jobs.append(dict(sub="threads", count=1500, fix=dict(k=(1, 10), T=(9, 16), hot=(0, 33))))
+        jobs.append(dict(sub="threads", count=400, fix=dict(k=(11, 13), T=(9, 16), hot=(0, 9), mode=1)))
         for i in range(16):
-            jobs.append(dict(sub="threads", count=2000, fix=dict(k=(1, 10))))
+            jobs.append(dict(sub="threads", count=2000, fix=dict(k=(1, 10), hot=-1)))
         for k in range(11, 17):
-            jobs.append(dict(sub="threads", count=40, fix=dict(k=k)))
+            jobs.append(dict(sub="threads", count=40, fix=dict(k=k, hot=-1)))
         for i in range(8):
-            jobs.append(dict(sub="threads", count=100, fix=dict(k=(13, 14), T=(3, 8), mode=1, calls=(4, 6))))
+            jobs.append(dict(sub="threads", count=100, fix=dict(k=(13, 14), T=(3, 8), mode=1, calls=(4, 6), hot=-1)))
     return jobs
 
 
@@ -38,5 +43,5 @@ PLAN = dict(
          "Non-trivial: >=2 threads execute the same entry point on the same shared object.",
     assumptions=["object construction happens-before thread start (documented usage)", "TSan happens-before race detection; the harness does not own the scheduler"],
     quick=_jobs("quick"), thorough=_jobs("thorough"),
-    required_classes=dict(all=["mode:warm", "mode:fresh", "T:8+"] + ["shared:" + k for k in KINDS]),
+    required_classes=dict(all=["mode:warm", "mode:fresh", "T:8+", "hot:every thread starts with the same entry point, T>=9"] + ["shared:" + k for k in KINDS]),
 )
